@@ -366,7 +366,7 @@ pub fn run_suite(ctx: &mut Ctx) {
 
 /// Scaled systems (MCAnalyses.tla, invariant Homogeneous): a small sporadic task set (validated equationally by TLC
 /// like every other rta event) and the same set with every period, jitter, cost, deadline, the blocking bound and the
-/// limit multiplied by K = 2^33..2^50.  For the homogeneous analyses the bound of the large system must be K times
+/// limit multiplied by an odd K between 2^40 and 2^55.  For the homogeneous analyses the bound of the large system must be K times
 /// the bound of the small one (decided by Apalache over unbounded integers).
 fn scale_call(inp: &Value) -> Value {
     json!({"small": call_rta(&inp["small"]), "big": call_rta(&inp["big"])})
@@ -374,7 +374,7 @@ fn scale_call(inp: &Value) -> Value {
 
 pub fn run_scale(ctx: &mut Ctx) {
     let n = if ctx.thorough { 1500 } else { 160 };
-    let policies = ["fp_p", "fp_np", "fp_fnp", "edf_p", "fifo"];
+    let policies = ["fp_p", "fp_np", "fp_lp", "fp_fnp", "edf_p", "fifo"];
     for i in 0..n {
         let policy = policies[i % policies.len()];
         let nt = ctx.rng.gen_range(1..=2usize);
@@ -389,10 +389,12 @@ pub fn run_scale(ctx: &mut Ctx) {
         let ps: Vec<(u64, u64, u64, u64)> = (0..=nt).map(|_| mk(&mut ctx.rng)).collect();
         let b = if policy == "fp_p" || policy == "edf_p" || policy == "fifo" { 0 } else { ctx.rng.gen_range(0..=3u64) };
         let lim = ctx.rng.gen_range(12..=40u64);
-        let k = 1u64 << ctx.rng.gen_range(33..=50);
+        // an odd factor: K * r is then not exactly representable as an f64 once it exceeds 2^53
+        let k = (1u64 << ctx.rng.gen_range(40..=54)) + 2 * ctx.rng.gen_range(0..500u64) + 1;
+        let last = ctx.rng.gen_range(1..=ps[0].2);
         let task = |p: &(u64, u64, u64, u64), f: u64| {
             json!({"a": {"k": "sporadic", "T": p.0 * f, "J": p.1 * f}, "c": {"k": "scalar", "c": p.2 * f}, "C": p.2 * f,
-                   "D": p.3 * f, "seg": p.2 * f, "last": 1})
+                   "D": p.3 * f, "seg": p.2 * f, "last": last.min(p.2) * f})
         };
         let build = |f: u64| {
             let tua = task(&ps[0], f);
